@@ -66,6 +66,9 @@ def version_cases(tier):
             out.append((pat, "groups-appear", z, nz))
             z2 = _st(pat, D2, major=2, minor=0, patch=0, inc0=0, num=0, tag="final")
             out.append((pat, "groups-vanish", nz, z2))
+        # the new version carries the tag `preview` (accepted by TAG, rc under PEP 440)
+        if "TAG" in pat.names:
+            out.append((pat, "to-preview", dict(a, tag="alpha"), dict(b, tag="preview")))
         # all numeric parts zero before (partial patterns then render from all-zero parts)
         if any(f in pat.fields for f in ("major", "minor")) and "patch" in pat.fields:
             zz = _st(pat, D1, major=0, minor=0, patch=5)
